@@ -49,6 +49,9 @@ checks = {
  "C06": dict(design="4/C06", engine="tlc-memo", technique="TLC model checking of MemoConc.tla (PlusCal model of memoize.Do / Release, one label per critical section: all interleavings, deadlock freedom and cache invariants) + race-detector stress of the real library (-race -tags verif) with yield injection at the verif hook points, per-transaction comparison with the sequential outcome, quiescent-cache invariants and audit-log integrity",
    text="The lock-free / mutex / singleflight protocol of the shared pattern cache is an explicit PlusCal model whose every interleaving TLC explores; races, cross-talk and deadlocks of the real code are searched by running generated transactions concurrently on one WAF, while other WAFs sharing cached patterns are built and closed, under the Go race detector with scheduling noise injected at the protocol's yield points; each transaction is compared with its sequential outcome and the model's quiescent invariants are evaluated on the real cache.",
    note="The Go scheduler cannot be enumerated: interleavings of the real code are sampled (race detector + yield injection, several seeds); only the memoize protocol is exhaustive, at the grain of its critical sections. Trusts the race detector."),
+ "C14": dict(design="4/C14", engine="tlc-bytes", technique="TLC enumeration of the byte-string input domain (Transform_MC, with the model's own laws as invariants) + TLC trace validation of the recorded function table of all real transformations against the laws and reference definitions of Transform.tla (Transform_Trace)",
+   text="Reference definitions and laws (Pure, InputIntact, ChangeSound, inverse pairs, idempotence) are written in TLA+ over byte strings; TLC enumerates every string over an adversarial alphabet up to a length bound; the real transformations are evaluated on all of them on inspectable buffers, and TLC checks every law on every record of the recorded function table (trace validation of pure functions).",
+   note="md5 / sha1 / base64 / length reference values: Go standard library. Case and whitespace reference equality asserted on ASCII inputs only. The laws are checked on every registered transformation, the byte-exact reference on the 14 it defines."),
 }
 
 not_built_reason = "check under construction in this session (see DESIGN.md section 4); not claimed until its machinery is committed"
@@ -70,6 +73,7 @@ manifest = {
    {"name":"tlc-audit","path":"spec/Audit.tla","serves_properties":["C19"],"kind_free_text":"TLA+ decision table of audit / error logging"},
    {"name":"tlc-mw","path":"spec/Mw.tla","serves_properties":["C18"],"kind_free_text":"TLA+ case table of the net/http middleware"},
    {"name":"tlc-memo","path":"spec/Memo.tla, spec/MemoConc.tla","serves_properties":["C13","C06"],"kind_free_text":"TLA+ models of the process-wide pattern cache: sequential key/artefact model and concurrent Do/Release protocol"},
+   {"name":"tlc-bytes","path":"spec/Bytes.tla, spec/Transform*.tla, spec/Operators*.tla","serves_properties":["C14","C15","C03"],"kind_free_text":"TLA+ reference definitions and laws of pure byte-string functions; TLC enumerates the input domain and validates recorded function tables"},
    {"name":"tlc-engine","path":"spec/Engine.tla, spec/Scen.tla, spec/Engine_MC.tla, spec/Engine_Trace.tla","serves_properties":["C01","C04","C08","C09","C12","C17"],"kind_free_text":"TLA+ specification of the rule interpreter; TLC enumerates scenarios + allowed outcomes (spec->code replay) and validates recorded executions (code->spec)"},
  ],
  "checks": [],
